@@ -24,6 +24,9 @@ Proof. reflexivity. Qed.
 Lemma abs_names r : s_names (abs r) = tab name_cmp (name_binding r) 0 id_span.
 Proof. reflexivity. Qed.
 
+Lemma s_find_abs r n : s_find (abs r) n = fget name_cmp n (tab name_cmp (name_binding r) 0 id_span).
+Proof. unfold s_find. rewrite abs_names. reflexivity. Qed.
+
 Lemma abs_get r id : s_get (abs r) id = if id <=? g_ValueMax then descr r id else None.
 Proof.
   unfold s_get. rewrite abs_types. unfold type_binding. rewrite fget_tab_id, span_N.
@@ -228,7 +231,7 @@ Lemma s_find_some r n id : inv r -> s_find (abs r) n = Some id ->
   id <= g_ValueMax /\ exists e, find_named (name_is n) r = Some e /\ ne_type e = id /\
     exists d, descr r id = Some d /\ d_name d = ne_name e /\ d_info d = ne_traits e.
 Proof.
-  intros I H. unfold s_find in H. rewrite abs_names in H.
+  intros I H. rewrite s_find_abs in H.
   apply (fget_tab_some name_cmp name_cmp_eq name_cmp_refl) in H.
   destruct H as (i & Hi & B). rewrite span_N in Hi. apply name_binding_some in B.
   destruct B as (-> & d & D & Dn). split; [lia|].
@@ -242,7 +245,7 @@ Qed.
 
 Lemma s_find_none r n : inv r -> s_find (abs r) n = None -> find_named (name_is n) r = None.
 Proof.
-  intros I H. unfold s_find in H. rewrite abs_names in H.
+  intros I H. rewrite s_find_abs in H.
   pose proof (fget_tab_none name_cmp name_cmp_eq name_cmp_refl _ _ _ _ H) as Hn.
   destruct (find_named (name_is n) r) as [e|] eqn:F; [exfalso|reflexivity].
   rewrite find_named_eq in F. apply find_some in F. destruct F as [Hin Hp]. apply name_is_true in Hp.
@@ -277,7 +280,7 @@ Proof.
   unfold name_is_n, name_is. destruct (ne_name e) as [m|]; [|destruct (length n <? L)%nat; reflexivity].
   destruct (Nat.ltb_spec (length n) L).
   - rewrite firstn_all2 by lia. destruct (name_eqb n m) eqn:E.
-    + apply name_eqb_eq in E. subst. destruct (Nat.eqb_spec (length n) L); [lia|reflexivity].
+    + apply name_eqb_eq in E. subst m. destruct (Nat.eqb_spec (length n) L); [lia|reflexivity].
     + apply andb_false_r.
   - destruct (name_eqb (firstn L n) m) eqn:E.
     + apply name_eqb_eq in E. subst m. rewrite firstn_length, Nat.min_l by lia.
@@ -314,5 +317,124 @@ Lemma opnamed_refines r n len : inv r ->
 Proof.
   intros I. pose proof (named_refines r n len I) as H.
   destruct (named_traits r n len), (s_lookup (abs r) n len) as [[id d]|]; cbn in *; try congruence.
-  inversion H. reflexivity.
+  inversion H. unfold s_entry. congruence.
+Qed.
+
+(* ---------- mpt_alias_typeid ---------- *)
+Lemma strip_drop l : strip_len l = match drop_spaces l with [] => None | x => Some (length x) end.
+Proof.
+  induction l as [|c rest IH]; [reflexivity|]. cbn [strip_len drop_spaces].
+  destruct (is_space c).
+  - destruct rest as [|c2 rest2]; [reflexivity|]. exact IH.
+  - reflexivity.
+Qed.
+
+Lemma drop_spaces_suffix l : exists sp, l = sp ++ drop_spaces l /\ length sp = skip_spaces l.
+Proof.
+  induction l as [|c l IH]; [exists []; auto|]. cbn [drop_spaces skip_spaces].
+  destruct (is_space c).
+  - destruct IH as (sp & E & L). exists (c :: sp). split; [simpl; congruence|simpl; congruence].
+  - exists []. auto.
+Qed.
+
+Lemma index_of_lt c l : forall k, index_of c l = Some k -> (k < length l)%nat.
+Proof.
+  induction l as [|a l IH]; intros k; simpl; [discriminate|].
+  destruct (a =? c); [intros H; inversion H; lia|].
+  destruct (index_of c l) as [j|]; simpl; [|discriminate].
+  intros H. inversion H. specialize (IH j eq_refl). lia.
+Qed.
+
+Lemma alias_refines r d e : inv r -> obs (OAlias (alias_typeid r d e)) = s_alias (abs r) d e.
+Proof.
+  intros I. unfold alias_typeid, s_alias. destruct d as [d|]; [|reflexivity].
+  destruct (index_of 58 d) as [k|] eqn:Ek.
+  - pose proof (index_of_lt _ _ _ Ek) as Hk.
+    destruct (Nat.eqb_spec k 0) as [->|Hk0]; [reflexivity|].
+    rewrite strip_drop.
+    destruct (drop_spaces_suffix (rev (firstn k d))) as (sp & Esp & _).
+    destruct (drop_spaces (rev (firstn k d))) as [|c t] eqn:Ed; [reflexivity|].
+    cbn [option_map].
+    assert (Epre : firstn k d = rev (c :: t) ++ rev sp).
+    { rewrite <- rev_app_distr, <- Esp, rev_involutive. reflexivity. }
+    assert (Hlen : (length (c :: t) <= k)%nat).
+    { assert (length (firstn k d) = k) by (rewrite firstn_length; lia).
+      rewrite Epre, app_length, rev_length in H. lia. }
+    assert (Enm : firstn (length (c :: t)) d = rev (c :: t)).
+    { replace (length (c :: t)) with (Nat.min (length (c :: t)) k) by lia.
+      rewrite <- firstn_firstn, Epre.
+      replace (length (c :: t)) with (length (rev (c :: t)) + 0)%nat by (rewrite rev_length; lia).
+      rewrite firstn_app_2. cbn [firstn]. apply app_nil_r. }
+    pose proof (named_refines r (Some d) (Z.of_nat (length (c :: t))) I) as R.
+    assert (HS : s_lookup (abs r) (Some d) (Z.of_nat (length (c :: t))) = s_by_name (abs r) (rev (c :: t))).
+    { unfold s_lookup. rewrite Nat2Z.id.
+      destruct (Z.eqb_spec (Z.of_nat (length (c :: t))) 0) as [Hz|_]; [simpl in Hz; lia|].
+      destruct (Nat.eqb_spec (length d) 0) as [Hz|_]; [lia|]. cbn [orb].
+      destruct (Z.ltb_spec (Z.of_nat (length (c :: t))) 0); [lia|].
+      destruct (Nat.ltb_spec (length d) (length (c :: t))); [lia|].
+      rewrite Enm. reflexivity. }
+    rewrite HS in R.
+    destruct (rev (c :: t)) as [|x nm] eqn:Erev.
+    { apply (f_equal (@length _)) in Erev. rewrite rev_length in Erev. simpl in Erev. lia. }
+    destruct (named_traits r (Some d) (Z.of_nat (length (c :: t)))) as [en|x0],
+             (s_by_name (abs r) (x :: nm)) as [[id dd]|]; cbn in R; try discriminate; [|reflexivity].
+    inversion R; subst id.
+    destruct (drop_spaces_suffix (skipn (S k) d)) as (sp2 & E2 & L2).
+    assert (length (skipn (S k) d) = length d - S k)%nat by apply skipn_length.
+    rewrite E2, app_length in H at 1.
+    destruct e; cbn [obs]; [|reflexivity]. f_equal. f_equal. lia.
+  - pose proof (named_refines r (Some d) (-1) I) as R.
+    destruct (named_traits r (Some d) (-1)) as [en|x0],
+             (s_lookup (abs r) (Some d) (-1)) as [[id dd]|]; cbn in R; try discriminate; [|reflexivity].
+    inversion R; subst id. destruct e; reflexivity.
+Qed.
+
+(* ---------- the sweep ---------- *)
+Lemma all_ok_map {A B} (f : A -> res B) (g : A -> B) l :
+  (forall x, In x l -> f x = Ok (g x)) -> all_ok (map f l) = Some (map g l).
+Proof.
+  induction l as [|a l IH]; intros H; [reflexivity|].
+  cbn [map all_ok]. rewrite (H a) by (left; reflexivity).
+  rewrite IH by (intros x Hx; apply H; right; exact Hx). reflexivity.
+Qed.
+
+Lemma ids_from_bound n : forall b x, In x (ids_from b n) -> b <= x < b + N.of_nat n.
+Proof.
+  induction n as [|n IH]; intros b x H; [destruct H|].
+  cbn [ids_from] in H. destruct H as [<-|H]; [lia|]. apply IH in H. lia.
+Qed.
+
+Lemma rows_iface r ids : inv r ->
+  map obs_row (sweep_named r (interface_traits r) ids) = s_rows (abs r) KInterface ids.
+Proof.
+  intros I. unfold sweep_named, s_rows. induction ids as [|id ids IH]; [reflexivity|].
+  cbn [flat_map]. rewrite map_app, IH. f_equal.
+  pose proof (iface_refines r id I) as H. unfold s_by_id in H.
+  destruct (interface_traits r id) as [[e|x]| |]; cbn [out_named obs] in H;
+    destruct (s_get (abs r) id) as [d|]; try discriminate; try reflexivity;
+    destruct (kind_eqb (d_kind d) KInterface); try discriminate; try reflexivity.
+  unfold s_entry in H. inversion H. cbn [map]. unfold obs_row. cbn [sw_id sw_ent sw_full sw_exact].
+  rewrite !lookup_id_refines by assumption. rewrite H2, H3. reflexivity.
+Qed.
+
+Lemma rows_meta r ids : inv r ->
+  map obs_row (sweep_named r (metatype_traits r) ids) = s_rows (abs r) KMetatype ids.
+Proof.
+  intros I. unfold sweep_named, s_rows. induction ids as [|id ids IH]; [reflexivity|].
+  cbn [flat_map]. rewrite map_app, IH. f_equal.
+  pose proof (meta_refines r id I) as H. unfold s_by_id in H.
+  destruct (metatype_traits r id) as [[e|x]| |]; cbn [out_named obs] in H;
+    destruct (s_get (abs r) id) as [d|]; try discriminate; try reflexivity;
+    destruct (kind_eqb (d_kind d) KMetatype); try discriminate; try reflexivity.
+  unfold s_entry in H. inversion H. cbn [map]. unfold obs_row. cbn [sw_id sw_ent sw_full sw_exact].
+  rewrite !lookup_id_refines by assumption. rewrite H2, H3. reflexivity.
+Qed.
+
+Lemma sweep_refines r : inv r -> obs (sweep r) = s_sweep (abs r).
+Proof.
+  intros I. unfold sweep, s_sweep. cbn [obs].
+  rewrite (all_ok_map _ (fun id => option_map d_info (s_get (abs r) id))).
+  - rewrite map_app, rows_iface, rows_meta by assumption. reflexivity.
+  - intros id Hin. apply traits_refines; [assumption|].
+    apply ids_from_bound in Hin. pose proof sweep_in_word. lia.
 Qed.
